@@ -366,6 +366,13 @@ def handle (op : String) (args : List String) : String :=
     else handlePos site aux
   | "C13.pos", _ => "unsupported: no model input for this position"
   | "C13.enum", _ :: aux :: _ => handleEnum aux
+  | "C13.enumhyp", _ :: aux :: _ =>
+    -- the hypotheses of `enum_values_c_semantics` / `enum_no_panic`, evaluated on a definition the real front end typed
+    (match (aux.splitOn " | ").mapM parseMemberFull with
+     | none => "bad-request"
+     | some ms =>
+       let ms := ms.map (·.1)
+       "wf=" ++ (if membersWf ms then "1" else "0") ++ " ok=" ++ (if membersOk ms then "1" else "0"))
   | "C13.enum", _ => "unsupported: no model input for this definition"
   | "C13.src", _ => "unsupported: front-end outcome, outside the evaluator model"
   | _, _ => "unsupported-op"
